@@ -1,5 +1,6 @@
 import TsVerif.C02.Props
 import TsVerif.C02.EditProps
+import TsVerif.C02.BalanceProps
 #print axioms TsVerif.C02.summarize_padding_size
 #print axioms TsVerif.C02.spans_nested
 #print axioms TsVerif.C02.siblings_ordered
@@ -19,3 +20,15 @@ import TsVerif.C02.EditProps
 #print axioms TsVerif.C02.yields_cons
 #print axioms TsVerif.C02.edit_preserves_summaries
 #print axioms TsVerif.C02.edited_spans_nested
+#print axioms TsVerif.C02.compress_leaves
+#print axioms TsVerif.C02.balance_leaves
+#print axioms TsVerif.C02.yields_iff_leaves
+#print axioms TsVerif.C02.balance_yields
+#print axioms TsVerif.C02.compress_yields
+#print axioms TsVerif.C02.compressGo_sized
+#print axioms TsVerif.C02.sized_same_leaves
+#print axioms TsVerif.C02.compress_root_extent
+#print axioms TsVerif.C02.balance_sized
+#print axioms TsVerif.C02.balance_root_extent
+#print axioms TsVerif.C02.nodeOK_summarize
+#print axioms TsVerif.C02.compress_summarized
